@@ -40,6 +40,10 @@ def jobs(prop, tier, seed):
             if o.get("coerce"):
                 b = dict(b, int_abs=99 if tier == "quick" else 999, float_pool=True, str_pool=True)
             out.append(dict(harness="C03", variant="e2e", pool="data", pid=pid, opts=o, bounds=b, budget_s=budget_s))
+    from vf.harness.C05 import STD
+
+    for name in sorted(STD):
+        out.append(dict(harness="C03", variant="std", pid=f"std:{name}", std=name, opts={}, bounds={}, budget_s=30))
     for cls in PRIMS:
         out.append(
             dict(harness="C03", variant="coerce", pid=f"coerce({cls})", cls=cls, opts={},
@@ -164,5 +168,49 @@ class CoerceUnit:
         return None
 
 
+STD_DATA = [
+    "", "x", "0", "1.5", "2020-01-02", "2020-13-45", "2020-01-02T03:04:05", "03:04:05", "25:00", "12345678-1234-5678-1234-567812345678",
+    "1.2.3.4", "::1", "10.0.0.0/8", "999.1.1.1", "a+b", "(", "YWI=", "YWJ", "a/b", "\x00", "NaN", "Infinity", "1e999",
+    None, True, 0, 1, -1, 10**400, 1.5, float("nan"), float("inf"), [], ["x"], {}, {"a": 1},
+]
+
+
+class StdTotal:
+    """standard-library converted types on a concrete pool of data (C parsers realise)"""
+
+    def __init__(self, job):
+        from apischema import ValidationError, deserialization_method
+        from vf.harness.C05 import StdInst
+
+        si = StdInst(job)
+        self.job = job
+        self.VE = ValidationError
+        self.methods = [deserialization_method(si.tp), deserialization_method(si.tp, coerce=True), deserialization_method(si.W)]
+        self.functions = ["apischema.std_types (converters, concrete data pool)"]
+        self.expect_tags = ["returned", "rejected"]
+        self.assumptions = ["realised: data from a concrete pool selected by forks; not a symbolic claim"]
+        self.relax = ()
+
+    def body(self, ctx: Ctx):
+        d = ctx.pick(STD_DATA, "d")
+        which = ctx.choice(3, "m")
+        if which == 2:
+            d = {"x": d, "xs": [d], "m": {"k": d}}
+        ctx.witness = repr(d)
+        ctx.run_phase()
+        try:
+            self.methods[which](d)
+            ctx.notes["tag:returned"] = True
+        except self.VE as e:
+            ctx.notes["tag:rejected"] = True
+            bad = well_formed_errors(e.errors)
+            if bad:
+                return Failure("errors-malformed", bad, witness=repr(d))
+        except Exception as e:
+            return Failure("crash", type(e).__name__, witness=repr(d), extra={"exc": type(e).__name__})
+        return None
+
+
 def make(job):
-    return CoerceUnit(job) if job.get("variant") == "coerce" else E2E(job)
+    v = job.get("variant")
+    return CoerceUnit(job) if v == "coerce" else StdTotal(job) if v == "std" else E2E(job)
